@@ -4,12 +4,12 @@ Driver commands of property C13 (core Lean only).  Command names start with "c13
   c13.bam <blocks> <hdrReads> <ops>
      blocks   as in c02.run (`x<hex>:csize` or `len:csize:seed`, joined by ',')
      hdrReads sizes of the header decoder's reads joined by ',' (or '-')
-     ops      joined by ',':  A (Read until an error) | C<bf>.<bb>-<ef>.<eb> (SetChunk) | N (SetChunk(nil))
+     ops      joined by ',':  A (Read until an error) | C<bf>.<bb>-<ef>.<eb> (SetChunk) | N (SetChunk(nil)) | S<bf>.<bb> (Reader.Seek)
               | I<chunk>+<chunk>… (NewIterator, Next until false, Close; `I-` = no chunks)
      answer   per op joined by ';':
               A, I → records `len.hash.bf.bb.ef.eb` (body length, body hash, bam LastChunk) joined by '|', then
                      '|' and the class of the error that ended the loop (for I: of Error(), `ok` when nil)
-              C, N → ok | eof | err
+              C, N, S → ok | eof | err
   c13.cr <blocks> <chunk>+<chunk>… <sizes>
      ChunkReader over a fresh reader; per Read `n:class:hash` joined by ';'
 -/
@@ -59,6 +59,10 @@ def runOps : BamReader → List String → List String → Option (List String)
       runOps br' ops ("|".intercalate rs :: acc)
     else if op == "N" then
       let (br', e) := br.setChunk none
+      runOps br' ops (errClass e :: acc)
+    else if op.startsWith "S" then do
+      let o ← parseOffset (op.drop 1).toString
+      let (br', e) := br.seek o
       runOps br' ops (errClass e :: acc)
     else if op.startsWith "C" then do
       let c ← parseChunk (op.drop 1).toString
